@@ -172,15 +172,16 @@ def run(report, replay=None):
     odd = ['\x0b', '\x0c', '\x1c', '\x1d', '\x1e', '\x85', '\u2028', '\u2029', '\x01', '\x1f', '\x7f', '\xa0', '\u3000', '\ufeff']
     strings += ['left%sright' % ch for ch in odd] + [ch for ch in odd] + ['a%s' % ch for ch in odd[:8]]
     pool += odd
+    strings += ['round', 'floor', 'rtn_s', 'q', 'mq', 'cycle', 'sqrt']          # texts that are also names of routines or variables
     strings = [s for s in strings if '"' not in s]
     for _ in range(2000 if tier == 'thorough' else 200):
         strings.append(''.join(rng.choice(pool) for _ in range(rng.randint(1, 12))))
     for text in strings:
         if text == '':
             continue
-        res = runner.run_script(world, 'assign q "%s" print q print "%s"' % (text, text))
+        res = runner.run_script(world, 'define rtn_s begin on all end assign q "%s" print q print "%s" define mq "%s" print mq' % (text, text, text))
         outs = [ev[1] for ev in res.events if ev[0] == 'out']
-        printed = outs[0] if len(outs) == 2 and outs[0] == outs[1] and isinstance(outs[0], str) else None
+        printed = outs[0] if len(outs) == 3 and outs[0] == outs[1] == outs[2] and isinstance(outs[0], str) else None
         rid = len(rows)
         rows.append({'id': rid, 'kind': 'string', 'w': codes(text), 'accepted': bool(res.accepted) and printed is not None,
                      'printed': codes(printed) if printed is not None else [0]})
